@@ -8,6 +8,7 @@ import (
 	"fmt"
 	"go/ast"
 	"go/constant"
+	"go/token"
 	"go/types"
 	"os"
 	"path/filepath"
@@ -553,7 +554,7 @@ func init() {
 			// direct uses of zstd outside the two wrappers
 			for _, fn := range c.srcFns {
 				top := fnName(topFn(fn))
-				if top == "ZSTDCompress" || top == "ZSTDDecompress" || fn.Synthetic != "" || fn.Name() == "init" {
+				if top == "ZSTDCompress" || top == "ZSTDDecompress" || fn.Synthetic != "" || fn.Name() == "init" || c.inOnceDo(fn) {
 					continue
 				}
 				for _, b := range fn.Blocks {
@@ -579,115 +580,139 @@ func init() {
 	})
 }
 
-// footerOffsets: in parseFooter each field is read at [off, off+W) with
-// off = previous off - W (first: data.Len() - W) and W the width of its decode.
-func (c *Ctx) footerOffsets(r *Report) {
-	fn := c.MustFn("parseFooter")
-	decl := c.Decl(fn)
-	key := "parseFooter/offsets"
-	if decl == nil {
-		r.undecided(key, "parseFooter", "-", "no declaration")
-		return
+// footerOffsets: the reads of parseFooter (directly or through a helper it
+// calls) form a contiguous tail of the data: evaluated symbolically on SSA as
+// data.Len() + delta, each read [start,end) has end-start equal to the width
+// of its fixed-width decode, reads are adjacent from the end of the data
+// backwards and cover exactly footerLen bytes.
+type offVal struct {
+	rel bool // relative to data.Len()
+	v   int64
+	ok  bool
+}
+
+func evalOff(v ssa.Value, env map[*ssa.Parameter]offVal, depth int) offVal {
+	if depth > 12 {
+		return offVal{}
 	}
-	type rd struct {
-		offVar  types.Object
-		width   int64
-		decodeW int64
-	}
-	defs := map[types.Object]ast.Expr{}
-	var reads []rd
-	readVar := map[types.Object]int{}
-	ast.Inspect(decl.Body, func(n ast.Node) bool {
-		as, ok := n.(*ast.AssignStmt)
-		if !ok || len(as.Rhs) != 1 {
-			return true
+	switch x := v.(type) {
+	case *ssa.Const:
+		if k, ok := constInt(x); ok {
+			return offVal{false, k, true}
 		}
-		if len(as.Lhs) == 1 {
-			if id, ok := as.Lhs[0].(*ast.Ident); ok {
-				if call, isCall := ast.Unparen(as.Rhs[0]).(*ast.CallExpr); !isCall || true {
-					_ = call
-					defs[c.Info.ObjectOf(id)] = as.Rhs[0]
-				}
+	case *ssa.Convert:
+		return evalOff(x.X, env, depth+1)
+	case *ssa.Parameter:
+		if b, ok := env[x]; ok {
+			return b
+		}
+	case *ssa.Call:
+		if sc := x.Call.StaticCallee(); sc != nil && sc.Name() == "Len" && sc.Signature.Recv() != nil && isNamed(sc.Signature.Recv().Type(), "github.com/blugelabs/bluge_segment_api", "Data") {
+			return offVal{true, 0, true}
+		}
+	case *ssa.BinOp:
+		a := evalOff(x.X, env, depth+1)
+		b := evalOff(x.Y, env, depth+1)
+		if !a.ok || !b.ok {
+			return offVal{}
+		}
+		switch x.Op {
+		case token.ADD:
+			if a.rel && b.rel {
+				return offVal{}
 			}
+			return offVal{a.rel || b.rel, a.v + b.v, true}
+		case token.SUB:
+			if b.rel {
+				return offVal{}
+			}
+			return offVal{a.rel, a.v - b.v, true}
 		}
-		call, ok := ast.Unparen(as.Rhs[0]).(*ast.CallExpr)
-		if !ok {
-			return true
-		}
-		se, ok := ast.Unparen(call.Fun).(*ast.SelectorExpr)
-		if !ok {
-			return true
-		}
-		switch se.Sel.Name {
-		case "Read":
-			if len(call.Args) == 2 {
-				sid, ok := ast.Unparen(call.Args[0]).(*ast.Ident)
-				be, ok2 := ast.Unparen(call.Args[1]).(*ast.BinaryExpr)
-				if ok && ok2 {
-					if wv, ok := foldedArg(c.Info, be.Y); ok {
-						var w int64
-						fmt.Sscan(wv, &w)
-						if xid, ok := ast.Unparen(be.X).(*ast.Ident); ok && c.Info.ObjectOf(xid) == c.Info.ObjectOf(sid) {
-							reads = append(reads, rd{offVar: c.Info.ObjectOf(sid), width: w})
-							if id, ok := as.Lhs[0].(*ast.Ident); ok {
-								readVar[c.Info.ObjectOf(id)] = len(reads) - 1
+	}
+	return offVal{}
+}
+
+type footerRead struct {
+	start, end, decodeW int64
+	pos                 token.Pos
+}
+
+func (c *Ctx) scanFooterReads(f *ssa.Function, env map[*ssa.Parameter]offVal, depth int, reads *[]footerRead, problems *[]string) {
+	for _, b := range f.Blocks {
+		for _, ins := range b.Instrs {
+			call, ok := ins.(*ssa.Call)
+			if !ok {
+				continue
+			}
+			if isDataRead(&call.Call) {
+				s := evalOff(call.Call.Args[1], env, 0)
+				e := evalOff(call.Call.Args[2], env, 0)
+				if !s.ok || !e.ok || !s.rel || !e.rel {
+					*problems = append(*problems, "a footer read at "+c.pos(call.Pos())+" is not located relative to data.Len()")
+					continue
+				}
+				x := footerRead{start: s.v, end: e.v, pos: call.Pos()}
+				if d := tupleParts(call)[0]; d != nil {
+					for _, ref := range *d.Referrers() {
+						if dc, ok := ref.(*ssa.Call); ok && dc.Call.StaticCallee() != nil {
+							switch dc.Call.StaticCallee().Name() {
+							case "Uint16":
+								x.decodeW = 2
+							case "Uint32":
+								x.decodeW = 4
+							case "Uint64":
+								x.decodeW = 8
 							}
 						}
 					}
 				}
+				*reads = append(*reads, x)
+				continue
 			}
-		case "Uint32", "Uint64":
-			if len(call.Args) == 1 {
-				if id, ok := ast.Unparen(call.Args[0]).(*ast.Ident); ok {
-					if i, ok := readVar[c.Info.ObjectOf(id)]; ok {
-						if se.Sel.Name == "Uint32" {
-							reads[i].decodeW = 4
-						} else {
-							reads[i].decodeW = 8
+			if sc := call.Call.StaticCallee(); sc != nil && c.inRoot(sc) && sc.Blocks != nil && depth < 2 {
+				ne := map[*ssa.Parameter]offVal{}
+				for i, p := range sc.Params {
+					if i < len(call.Call.Args) {
+						if ov := evalOff(call.Call.Args[i], env, 0); ov.ok {
+							ne[p] = ov
 						}
 					}
 				}
+				c.scanFooterReads(sc, ne, depth+1, reads, problems)
 			}
 		}
-		return true
-	})
-	if len(reads) == 0 {
-		r.undecided(key, "parseFooter", c.pos(fn.Pos()), "no fixed-width reads recognised")
+	}
+}
+
+func (c *Ctx) footerOffsets(r *Report) {
+	fn := c.MustFn("parseFooter")
+	key := "parseFooter/offsets"
+	var reads []footerRead
+	var problems []string
+	c.scanFooterReads(fn, map[*ssa.Parameter]offVal{}, 0, &reads, &problems)
+	if len(problems) > 0 {
+		r.bad(key, "parseFooter", c.pos(fn.Pos()), problems[0])
 		return
 	}
+	if len(reads) == 0 {
+		r.undecided(key, "parseFooter", c.pos(fn.Pos()), "no footer reads recognised")
+		return
+	}
+	sort.Slice(reads, func(i, j int) bool { return reads[i].start > reads[j].start })
 	var total int64
-	var prev types.Object
+	prev := int64(0)
 	for i, x := range reads {
-		total += x.width
-		if x.width != x.decodeW {
-			r.bad(key, "parseFooter", c.pos(fn.Pos()), fmt.Sprintf("footer read #%d spans %d bytes but is decoded as %d bytes", i+1, x.width, x.decodeW))
+		w := x.end - x.start
+		total += w
+		if x.end != prev {
+			r.bad(key, "parseFooter", c.pos(x.pos), fmt.Sprintf("footer read #%d (from the end) covers [Len%+d, Len%+d) but the previous field starts at Len%+d: the fields are not adjacent", i+1, x.start, x.end, prev))
 			return
 		}
-		def, ok := defs[x.offVar].(*ast.BinaryExpr)
-		if !ok || def.Op.String() != "-" {
-			r.bad(key, "parseFooter", c.pos(fn.Pos()), fmt.Sprintf("offset of footer read #%d is not (previous offset - width)", i+1))
+		if w != x.decodeW {
+			r.bad(key, "parseFooter", c.pos(x.pos), fmt.Sprintf("footer read #%d (from the end) spans %d bytes but is decoded as %d bytes", i+1, w, x.decodeW))
 			return
 		}
-		wv, _ := foldedArg(c.Info, def.Y)
-		var w int64
-		fmt.Sscan(wv, &w)
-		if w != x.width {
-			r.bad(key, "parseFooter", c.pos(fn.Pos()), fmt.Sprintf("footer read #%d steps back %d bytes but reads %d", i+1, w, x.width))
-			return
-		}
-		if i == 0 {
-			if call, ok := ast.Unparen(def.X).(*ast.CallExpr); !ok || !strings.HasSuffix(types.ExprString(call.Fun), ".Len") {
-				r.bad(key, "parseFooter", c.pos(fn.Pos()), "the first footer field is not located relative to data.Len()")
-				return
-			}
-		} else {
-			id, ok := ast.Unparen(def.X).(*ast.Ident)
-			if !ok || c.Info.ObjectOf(id) != prev {
-				r.bad(key, "parseFooter", c.pos(fn.Pos()), fmt.Sprintf("offset of footer read #%d is not derived from the previous field's offset", i+1))
-				return
-			}
-		}
-		prev = x.offVar
+		prev = x.start
 	}
 	fl, _ := constantInt64(c.ConstVal("footerLen"))
 	if total != fl {
